@@ -416,6 +416,13 @@ def poll_body_rules(F, R):
         if step[0] == "eof" and good:
             good = isinstance(out[2][0], Adt) and out[2][0].variant == "UnexpectedEof"
         R.check(good, "P-body", "transport/%s" % step[0], "transport %s in the body state gives %s" % (step[0], out), where=fid)
+    # a transport error is returned as it is even when the header type would classify it as an EOF-class error
+    # (is_eof_error is for errors of the *body decoder* running on the buffered bytes, not for the transport)
+    for nread, script in ((0, [("err",)]), (2, [("chunk", 2), ("err",)])):
+        pr = PollRun(F, body_state(0), script, buf_len=5, inner_eof=True).run()
+        out = _ret_kind(pr.outcome[1]) if pr.outcome[0] == "returned" else pr.outcome
+        R.check(out[:2] == ("err-passthrough", Sym("IOERR")), "P-body", "transport/err-eof-kind/after-%d" % nread,
+                "a transport error of an EOF-class kind after %d body bytes gives %s (expected that error, unchanged)" % (nread, out), where=fid)
     # complete fill: decoder outcomes
     cases = [
         ("ok-exact", dict(decoded=ok(Sym("PACKET")), leftover=False), "ok"),
